@@ -1432,7 +1432,9 @@ impl<Word, Buf: SafeBuf<Word> + AsMut<[Word]>> BoundedWriteWords<Word>
 {
     #[inline(always)]
     fn space_left(&self) -> usize {
-        self.0.buf.as_ref().len()
+        // A reversed cursor writes downwards, so the free space is the number of words
+        // below the current position (not the total length of the buffer).
+        self.0.pos
     }
 }
 
